@@ -502,7 +502,13 @@ GENS = {
 EXTRA = {"mpf_div": [c_div_directed]}
 
 
+ISQRT_STEPS = ("isqrt_small_newton", "isqrt_fast_smallx", "isqrt_fast_bigx", "sqrtrem_fix")
+
+
 def make_cases(rng, fn, n):
+    if fn in ISQRT_STEPS:
+        import isqrtcases
+        return [isqrtcases.GENS[fn](rng, fn) for _ in range(n)]
     gens = [GENS[fn]] + EXTRA.get(fn, [])
     return [gens[i % len(gens)](rng, fn) for i in range(n)]
 
@@ -635,4 +641,7 @@ def spec_check(case, out):
                 bad.append(("VALUE", "integer result differs from exact value"))
         elif kind == "ints2":
             if tuple(payload[:2]) != tuple(case.exact[1]): bad.append(("VALUE", "sqrtrem differs from the exact root and remainder"))
+        elif kind in ("isqrt_start", "isqrt_fast", "sqrtrem_fix"):
+            import isqrtcases
+            bad += isqrtcases.spec(case, out)
     return bad
